@@ -100,73 +100,91 @@ theorem rigid_from_kex (cfg : Cfg) (ks : List UInt8) : ∀ (s : St) (tys : List 
         exact ⟨rest, by simp [h, hr]⟩
       · rw [failed_never_done cfg _ tl hf hi] at hd; simp at hd
 
-/-- once a packet was counted before the peer's KEXINIT, a strict handshake cannot complete
-    (IGNORE/DEBUG are dropped but counted; KEXINIT then finds `seqNum ≠ 1`; anything else is not KEXINIT) -/
+theorem add_one_eq_one (s : UInt32) (h : (s + 1 == 1) = true) : s = 0 := by
+  have h1 : s + 1 = 1 := by simpa using h
+  have := congrArg (· - 1) h1
+  simpa using this
+
+theorem ofNat_succ (n : Nat) : UInt32.ofNat (n + 1) = UInt32.ofNat n + 1 := by
+  simp [UInt32.ofNat_add]
+
+/-- **prefix_counted** (with the real uint32 arithmetic): from the state "nothing delivered yet, `q` packets counted",
+    a strict handshake completes only along `pre ++ honest ++ rest` where `pre` consists of IGNORE / DEBUG packets
+    only (dropped but counted) and `q + |pre|` is 0 modulo 2^32 — the KEXINIT must carry sequence number 0. -/
 theorem prefix_counted (cfg : Cfg) (hsp : cfg.strictPeer = true) : ∀ (tys : List UInt8) (s : St),
-    s.phase = .first → s.seq ≥ 1 → s.strict = false → s.initialDone = false →
-    (run cfg s tys).initialDone = false := by
+    s.phase = .first → s.strict = false → s.initialDone = false →
+    (run cfg s tys).initialDone = true →
+    ∃ pre rest, tys = pre ++ honest cfg ++ rest ∧ (∀ t ∈ pre, keep t = false) ∧
+      s.seq + UInt32.ofNat pre.length = 0 := by
   intro tys
   induction tys with
-  | nil => intro s _ _ _ hi; exact hi
+  | nil => intro s _ _ hi hd; simp [run, hi] at hd
   | cons ty tl ih =>
-    intro s hp hq hst hi
-    rw [run_cons]
-    have key : ((step cfg s ty).phase = .failed ∧ (step cfg s ty).initialDone = false) ∨
-        ((step cfg s ty).phase = .first ∧ (step cfg s ty).seq ≥ 1 ∧ (step cfg s ty).strict = false ∧
-          (step cfg s ty).initialDone = false) := by
-      unfold step
-      rw [hp]
-      simp only
-      by_cases a : ty == msgNewKeys
-      · left; simp [a, fail, hi]
-      · by_cases b : ty == msgDisconnect
-        · left; simp [a, b, fail, hi]
-        · by_cases c : (ty == msgIgnore || ty == msgDebug)
-          · right; simp [a, b, c, hst, hp, hi]
-          · by_cases d : ty == msgKexInit
-            · left
-              have : ¬ (s.seq + 1 == 1) = true := by simp; omega
-              simp [a, b, c, d, hsp, this, fail, hi]
-            · left; simp [a, b, c, d, fail, hi]
-    rcases key with ⟨hf, hi'⟩ | ⟨h1, h2, h3, h4⟩
-    · exact failed_never_done cfg _ tl hf hi'
-    · exact ih _ h1 h2 h3 h4
-
-/-- **strict_rigid**: if the peer offers strict kex, the first key exchange completes (keys installed,
-    `initialKEXDone`) only if what was delivered starts with exactly KEXINIT, the kex method's messages and NEWKEYS —
-    no inserted packet of any type (IGNORE and DEBUG included), no deletion, no reordering. -/
-theorem strict_rigid (cfg : Cfg) (hsp : cfg.strictPeer = true) (tys : List UInt8)
-    (hd : (run cfg init tys).initialDone = true) : ∃ rest, tys = honest cfg ++ rest := by
-  cases tys with
-  | nil => simp [run, init] at hd
-  | cons ty tl =>
+    intro s hp hst hi hd
     rw [run_cons] at hd
-    by_cases d : ty = msgKexInit
-    · subst d
-      have hst : step cfg init msgKexInit =
-          { phase := enterKex cfg.kexTypes, seq := 1, strict := true, initialDone := false } := by
-        simp [step, init, hsp, msgKexInit, msgNewKeys, msgDisconnect, msgIgnore, msgDebug]
-      rw [hst] at hd
-      obtain ⟨rest, hr⟩ := rigid_from_kex cfg cfg.kexTypes _ tl rfl ⟨rfl, rfl⟩ hd
-      exact ⟨rest, by simp [honest, hr]⟩
-    · -- anything else first: dropped-but-counted (IGNORE/DEBUG) or an immediate failure
-      have key : ((step cfg init ty).phase = .failed ∧ (step cfg init ty).initialDone = false) ∨
-          ((step cfg init ty).phase = .first ∧ (step cfg init ty).seq ≥ 1 ∧ (step cfg init ty).strict = false ∧
-            (step cfg init ty).initialDone = false) := by
-        unfold step
-        simp only [init]
-        by_cases a : ty == msgNewKeys
-        · left; simp [a, fail]
-        · by_cases b : ty == msgDisconnect
-          · left; simp [a, b, fail]
-          · by_cases c : (ty == msgIgnore || ty == msgDebug)
-            · right; simp [a, b, c]
-            · left
-              have d' : ¬ (ty == msgKexInit) = true := by simpa using d
-              simp [a, b, c, d', fail]
-      rcases key with ⟨hf, hi⟩ | ⟨h1, h2, h3, h4⟩
-      · rw [failed_never_done cfg _ tl hf hi] at hd; simp at hd
-      · rw [prefix_counted cfg hsp tl _ h1 h2 h3 h4] at hd; simp at hd
+    by_cases a : ty == msgNewKeys
+    · have hf : (step cfg s ty).phase = .failed ∧ (step cfg s ty).initialDone = false := by
+        simp [step, hp, a, fail, hi]
+      rw [failed_never_done cfg _ tl hf.1 hf.2] at hd; simp at hd
+    · by_cases b : ty == msgDisconnect
+      · have hf : (step cfg s ty).phase = .failed ∧ (step cfg s ty).initialDone = false := by
+          simp [step, hp, a, b, fail, hi]
+        rw [failed_never_done cfg _ tl hf.1 hf.2] at hd; simp at hd
+      · by_cases c : (ty == msgIgnore || ty == msgDebug)
+        · -- dropped, but counted
+          have hstep : step cfg s ty = { s with seq := s.seq + 1 } := by
+            simp [step, hp, a, b, c, hst]
+          rw [hstep] at hd
+          obtain ⟨pre, rest, h1, h2, h3⟩ := ih { s with seq := s.seq + 1 } hp hst hi hd
+          refine ⟨ty :: pre, rest, by simp [h1], ?_, ?_⟩
+          · intro t ht
+            rcases List.mem_cons.mp ht with rfl | ht
+            · simp [keep, c]
+            · exact h2 t ht
+          · simp only [List.length_cons, ofNat_succ]
+            simp only at h3
+            rw [← h3, UInt32.add_assoc, UInt32.add_comm 1]
+        · by_cases d : ty == msgKexInit
+          · by_cases e : (s.seq + 1 == 1) = true
+            · have hstep : step cfg s ty =
+                  { phase := enterKex cfg.kexTypes, seq := s.seq + 1, strict := true, initialDone := s.initialDone } := by
+                simp [step, hp, a, b, c, d, hsp, e]
+              rw [hstep] at hd
+              obtain ⟨rest, hr⟩ := rigid_from_kex cfg cfg.kexTypes
+                { phase := enterKex cfg.kexTypes, seq := s.seq + 1, strict := true, initialDone := s.initialDone } tl rfl ⟨rfl, hi⟩ hd
+              have hty : ty = msgKexInit := by simpa using d
+              refine ⟨[], rest, by simp [honest, hr, hty], by simp, ?_⟩
+              simp [add_one_eq_one s.seq e]
+            · have hf : (step cfg s ty).phase = .failed ∧ (step cfg s ty).initialDone = false := by
+                simp [step, hp, a, b, c, d, hsp, e, fail, hi]
+              rw [failed_never_done cfg _ tl hf.1 hf.2] at hd; simp at hd
+          · have hf : (step cfg s ty).phase = .failed ∧ (step cfg s ty).initialDone = false := by
+              simp [step, hp, a, b, c, d, fail, hi]
+            rw [failed_never_done cfg _ tl hf.1 hf.2] at hd; simp at hd
+
+/-- **strict_rigid** (uint32 arithmetic): if the peer offers strict kex, the first key exchange completes only if what
+    was delivered is `pre ++ KEXINIT ++ kex messages ++ NEWKEYS ++ …` where `pre` is a block of IGNORE / DEBUG packets
+    whose length is a multiple of 2^32 (the counter wrapped back to 0). -/
+theorem strict_rigid_wrap (cfg : Cfg) (hsp : cfg.strictPeer = true) (tys : List UInt8)
+    (hd : (run cfg init tys).initialDone = true) :
+    ∃ pre rest, tys = pre ++ honest cfg ++ rest ∧ (∀ t ∈ pre, keep t = false) ∧ pre.length % 2 ^ 32 = 0 := by
+  obtain ⟨pre, rest, h1, h2, h3⟩ := prefix_counted cfg hsp tys init rfl rfl rfl hd
+  refine ⟨pre, rest, h1, h2, ?_⟩
+  have := congrArg UInt32.toNat h3
+  simpa [init, UInt32.toNat_ofNat'] using this
+
+/-- **strict_rigid**: with fewer than 2^32 packets delivered — i.e. always, in practice: 2^32 minimal packets are
+    64 GiB — the delivered sequence must *start* with exactly KEXINIT, the kex method's messages and NEWKEYS:
+    no inserted packet of any type (IGNORE and DEBUG included), no deletion, no reordering. -/
+theorem strict_rigid (cfg : Cfg) (hsp : cfg.strictPeer = true) (tys : List UInt8) (hlen : tys.length < 2 ^ 32)
+    (hd : (run cfg init tys).initialDone = true) : ∃ rest, tys = honest cfg ++ rest := by
+  obtain ⟨pre, rest, h1, _, h3⟩ := strict_rigid_wrap cfg hsp tys hd
+  have hl : pre.length < 2 ^ 32 := by
+    have : pre.length ≤ tys.length := by rw [h1]; simp [List.length_append, Nat.add_assoc]
+    omega
+  have : pre.length = 0 := by omega
+  have hp : pre = [] := List.eq_nil_of_length_eq_zero this
+  exact ⟨rest, by simp [h1, hp]⟩
 
 /-- non-vacuity: the honest sequence does complete, with the sequence number back at 0 -/
 theorem strict_honest_completes (cfg : Cfg) (hsp : cfg.strictPeer = true)
@@ -273,10 +291,10 @@ theorem seq_zero_after_newkeys (cfg : Cfg) (hsp : cfg.strictPeer = true) (tys : 
     simp [hs]
 
 /-- write direction: the packet after a NEWKEYS is sent with sequence number 0 iff strict mode is on -/
-theorem wseq_zero_after_newkeys (seq : Nat) : wstep true seq msgNewKeys = 0 := by
+theorem wseq_zero_after_newkeys (seq : UInt32) : wstep true seq msgNewKeys = 0 := by
   simp [wstep]
 
-theorem wseq_nonstrict (seq : Nat) (ty : UInt8) : wstep false seq ty = seq + 1 := by
+theorem wseq_nonstrict (seq : UInt32) (ty : UInt8) : wstep false seq ty = seq + 1 := by
   simp [wstep]
 
 /-- without strict mode the counter simply keeps counting across NEWKEYS -/
@@ -285,8 +303,6 @@ theorem nonstrict_seq_counts (cfg : Cfg) (s : St) (hp : s.phase = .newkeys) (hs 
   simp [step, hp, hs]
 
 /-! ## without strict mode IGNORE / DEBUG are transparent at any point -/
-
-def keep (ty : UInt8) : Bool := !(ty == msgIgnore || ty == msgDebug)
 
 /-- same control state, strict mode off on both sides (sequence numbers may differ) -/
 def Sim (a b : St) : Prop := a.phase = b.phase ∧ a.strict = false ∧ b.strict = false
@@ -364,9 +380,9 @@ theorem ignore_debug_transparent (cfg : Cfg) (hsp : cfg.strictPeer = false) (tys
 
 /-- …and every packet is still counted -/
 theorem nonstrict_counts_all (cfg : Cfg) (hsp : cfg.strictPeer = false) (tys : List UInt8)
-    (hok : (run cfg init tys).phase ≠ .failed) : (run cfg init tys).seq = tys.length := by
+    (hok : (run cfg init tys).phase ≠ .failed) : (run cfg init tys).seq = UInt32.ofNat tys.length := by
   have gen : ∀ (tys : List UInt8) (s : St), s.strict = false → (run cfg s tys).phase ≠ .failed →
-      (run cfg s tys).seq = s.seq + tys.length ∧ True := by
+      (run cfg s tys).seq = s.seq + UInt32.ofNat tys.length ∧ True := by
     intro tys
     induction tys with
     | nil => intro s _ _; simp [run]
@@ -404,7 +420,7 @@ theorem nonstrict_counts_all (cfg : Cfg) (hsp : cfg.strictPeer = false) (tys : L
       · rw [run_failed cfg _ tl h2] at hok; exact absurd h2 hok
       · have := (ih _ h1 hok).1
         refine ⟨?_, trivial⟩
-        rw [this, h2]; simp; omega
+        rw [this, h2, List.length_cons, ofNat_succ, UInt32.add_assoc, UInt32.add_comm 1]
   have := (gen tys init rfl hok).1
   simpa [init] using this
 
